@@ -1,4 +1,5 @@
 import Dtr.Proofs.RowIt
+import Dtr.Model.AfterError
 /-!
 # C14 — virtual signals are computed from the same row's outputs, blind to variables
 -/
@@ -107,5 +108,39 @@ theorem C14_index_is_virtual (tc : TestCase) (outs : List OutEntry) (i : EIdx) (
     (hs : tc.signals[i.sig]? = some s) (ht : s.typ = .virt e) :
     oidxFor tc outs i = .ok (.virt e, i.sig) := by
   simp [oidxFor, hs, ht]
+
+/-- **The blindness survives a refused answer**: behind an error item of the IO step — a driver error, an answer of the
+wrong shape, a virtual signal that cannot be evaluated — the spare store is still the one it was (the two stores are
+swapped back also on the error path), so the virtual signals of the following rows are again evaluated without the
+program's variables (`RowIt.nextC`: the state of the code behind every item). -/
+theorem C14_spare_store_behind_error {δ : Type} (tc : TestCase) (drv : Driver δ) (fuel : Nat) (s s' : RowIt) (d d' : δ)
+    (e : IterErr) (calls : List Call) (hc : calls ≠ [])
+    (h : s.nextC tc drv fuel d = .item (.err e) s' d' calls) :
+    s'.ctx.alt = s.ctx.alt := by
+  unfold RowIt.nextC at h
+  cases hg : getRow tc fuel s with
+  | err e1 => simp only [hg, NextOut.item.injEq] at h; exact absurd h.2.2.2.symm hc
+  | panic m => simp [hg] at h
+  | fuel => simp [hg] at h
+  | none s1 => simp [hg] at h
+  | row ev sg =>
+    have hctx := getRow_ctx tc fuel s sg ev hg
+    simp only [hg] at h
+    split at h
+    · split at h
+      · simp only [NextOut.item.injEq] at h; rw [← h.2.1]; exact hctx.2.1
+      · split at h
+        · cases h
+        · simp only [NextOut.item.injEq] at h
+          rw [← h.2.1]
+          simp only
+          unfold extractCtxAfter
+          split
+          · exact hctx.2.1
+          · exact hctx.2.1
+        · cases h
+    · split at h
+      · simp only [NextOut.item.injEq] at h; rw [← h.2.1]; exact hctx.2.1
+      · cases h
 
 end Dtr
